@@ -35,6 +35,7 @@ type Contract struct {
 	Ensures  []*Clause
 	Modifies []*Clause
 	Loops    map[int]*LoopContract
+	Decreases *Clause // termination measure for (mutually) recursive functions
 	Ghosts   []SpecParam // ghost parameters (universally quantified in the callee, bound by unique type match at call sites)
 	Line     int
 	Trusted  bool // contract assumed, body not verified
@@ -71,12 +72,13 @@ type ContractFile struct {
 	Lemmas    map[string]*Lemma
 	LemmaOrd  []string
 	Immutable []string // "<Type>.<field>[.<sub>]": fields written only at construction
+	GhostVars map[string]string // ghost globals: name -> type
 	AssumedInvs []*Clause // closed formulas assumed in every state at cut points (trusted data-structure invariants)
 	NonNilMaps []string // map types whose values are never nil (checked at every MapUpdate under contract, assumed at reads)
 	Path      string
 }
 
-var reFuncHdr = regexp.MustCompile(`^func\s+(?:\(\s*(?:\w+\s+)?\*?(\w+)\s*\)\s*)?([\w$.]+)\s*(\(.*)?$`)
+var reFuncHdr = regexp.MustCompile(`^func\s+(?:\(\s*(?:\w+\s+)?\*?(\w+)\s*\)\s*)?([\w$./-]+)\s*(\(.*)?$`)
 var reSpecHdr = regexp.MustCompile(`^pure\s+(?:(opaque|rec|abstract)\s+)?func\s+(\w+)\s*\(([^)]*)\)\s*([^=]*?)\s*(?:=\s*(.*))?$`)
 var reReads = regexp.MustCompile(`^(.*?)\s+reads\s+(.*)$`)
 var reLemmaHdr = regexp.MustCompile(`^lemma\s+(\w+)\s*\(([^)]*)\)\s*$`)
@@ -123,7 +125,7 @@ func parseContractFile(path string) (*ContractFile, error) {
 	sc := bufio.NewScanner(f)
 	sc.Buffer(make([]byte, 1<<20), 1<<20)
 	ln := 0
-	kwRe := regexp.MustCompile(`^(props|overflow|requires|ensures|modifies|loop|trusted|attr|induction|ghost)\b\s*(.*)$`)
+	kwRe := regexp.MustCompile(`^(props|overflow|requires|ensures|modifies|loop|trusted|attr|induction|ghost|decreases)\b\s*(.*)$`)
 	for sc.Scan() {
 		ln++
 		line := strings.TrimSpace(sc.Text())
@@ -135,6 +137,17 @@ func parseContractFile(path string) (*ContractFile, error) {
 			body = strings.TrimSpace(body[:i])
 		}
 		if body == "" {
+			continue
+		}
+		if strings.HasPrefix(body, "ghost var ") {
+			f := strings.Fields(strings.TrimPrefix(body, "ghost var "))
+			if len(f) == 2 {
+				if cf.GhostVars == nil {
+					cf.GhostVars = map[string]string{}
+				}
+				cf.GhostVars[f[0]] = f[1]
+			}
+			cur = nil
 			continue
 		}
 		if strings.HasPrefix(body, "assume-invariant ") {
@@ -307,6 +320,12 @@ func parseContractFile(path string) (*ContractFile, error) {
 				case "trusted":
 					c.Trusted = true
 					c.Attrs["trusted"] = strings.TrimSpace(rc.text)
+				case "decreases":
+					cl, err := mkClause(rc.text, rc.line)
+					if err != nil {
+						return nil, err
+					}
+					c.Decreases = cl
 				case "ghost":
 					ps, err := parseParams(rc.text)
 					if err != nil {
